@@ -35,7 +35,7 @@ m = {
     "hooks": {
         "guard": "verif",
         "enable": "no source hooks: harness _test.go files are injected at build time with `go test -c -overlay` (see DESIGN.md 1.1); the tag is reserved and unused",
-        "baseline_off_cmd": "for m in app core extras; do (cd /repo/$m && go test -json -vet=off -count=1 -timeout 25m ./...); done",
+        "baseline_off_cmd": "for m in $(cat /w/out/gomods.txt); do MF=$(cd /repo/$m && . /w/out/goenv.sh && gomodflag); (cd /repo/$m && go test $MF -json -vet=off -count=1 -timeout 25m ./...); done",
         "source_commits": [],
         "add_only": True,
     },
